@@ -375,6 +375,15 @@ class Zeroconf(QuietLogger):
             # the newest ones in every cache on the network. The announcements
             # carry every record of the service, so nothing is lost by dropping them.
             self._async_remove_pending_answers(replaced_info, False)
+            # Address and NSEC records that the new info no longer has are gone as
+            # well, unless another service on the same host still has them
+            gone = replaced_info.get_address_and_nsec_records() - info.get_address_and_nsec_records()
+            if gone and replaced_info.server_key is not None:
+                for other_info in self.registry.async_get_infos_server(replaced_info.server_key):
+                    if other_info is not info:
+                        gone = gone - other_info.get_address_and_nsec_records()
+                for queue in (self.out_queue, self.out_delay_queue):
+                    queue.async_remove_records(gone)
         return asyncio.ensure_future(self._async_broadcast_service(info, _REGISTER_TIME, None))
 
     async def async_get_service_info(
@@ -514,7 +523,7 @@ class Zeroconf(QuietLogger):
         if include_addresses:
             records.update(info.get_address_and_nsec_records())
         for queue in (self.out_queue, self.out_delay_queue):
-            queue._remove_answers_from_queue(records)  # pylint: disable=protected-access
+            queue.async_remove_records(records)
 
     async def async_unregister_all_services(self) -> None:
         """Unregister all registered services.
